@@ -257,7 +257,9 @@ def extra_items():
     items = []
     for modname in ("harness.tr.tr_reader", "harness.tr.tr_importer", "harness.tr.tr_optimizer",
                     "harness.tr.tr_numbers", "harness.tr.tr_codecs", "harness.tr.tr_conc",
-                    "harness.tr.tr_bindings", "harness.tr.tr_arity"):
+                    "harness.tr.tr_bindings", "harness.tr.tr_arity", "harness.tr.tr_equality",
+                    "harness.tr.tr_printer",
+                    "harness.tr.tr_lazyseq", "harness.tr.tr_syntaxquote"):
         try:
             mod = __import__(modname, fromlist=["ITEMS"])
         except ImportError:
